@@ -320,6 +320,11 @@ pub fn probes() -> Vec<ProbeSrc> {
     // no safe conversion from a plain reference into a Borrow / BorrowMut with a lifetime of the caller's choosing
     v.push(simple("Borrow/from-plain-reference", "C16/lifetime/Borrow/from-reference-unbound", "pub fn probe() -> reference::Borrow<'static, i32> {\n    let l = 5i32;\n    reference::Borrow::from(&l)\n}\n", None));
     v.push(simple("BorrowMut/from-plain-reference", "C16/lifetime/BorrowMut/from-reference-unbound", "pub fn probe() -> reference::BorrowMut<'static, i32> {\n    let mut l = 5i32;\n    reference::BorrowMut::from(&mut l)\n}\n", None));
+    // no safe way to turn a borrow of (part of) something into a free-standing Reference: a projection or a conversion from a
+    // plain reference would let the result outlive its target
+    v.push(simple("Reference/safe-projection-map", "C16/lifetime/Reference/safe-projection", "pub fn probe() -> i32 {\n    let part = { let whole = rc_ref_cell_reference((5i32, 6i32)); whole.map(|w| &mut w.0) };\n    let out = *part.borrow();\n    out\n}\n", None));
+    v.push(simple("Reference/safe-from-mut-reference", "C16/lifetime/Reference/safe-from-reference", "pub fn probe() -> i32 {\n    let r: Reference<i32> = { let mut x = 5i32; Reference::from(&mut x) };\n    let out = *r.borrow();\n    out\n}\n", None));
+    v.push(simple("Reference/safe-from-raw-pointer", "C16/lifetime/Reference/safe-from-pointer", "pub fn probe() -> i32 {\n    let r: Reference<i32> = { let mut x = 5i32; Reference::from(&mut x as *mut i32) };\n    let out = *r.borrow();\n    out\n}\n", None));
     // an unsafe operation written inside a macro argument must still need the caller's own `unsafe`
     v.push(simple(
         "to_dyn/unsafe-call-in-argument",
@@ -344,7 +349,7 @@ pub fn probes() -> Vec<ProbeSrc> {
                 "static_reference/names-a-local" => &["unexpected end of macro invocation", "no rules expected", "E0435", "E0308"],
                 "Borrow/from-plain-reference" | "BorrowMut/from-plain-reference" => &["E0277", "E0308", "E0515", "E0597"],
                 // any rejection by the type system counts (mismatched types, unsatisfied trait bound, no such method)
-                "to_dyn/duck-typed-into_inner" | "to_dyn/bare-ReferenceUnsafe-argument" => &["E0308", "E0277", "E0599"],
+                "to_dyn/duck-typed-into_inner" | "to_dyn/bare-ReferenceUnsafe-argument" | "Reference/safe-projection-map" | "Reference/safe-from-mut-reference" | "Reference/safe-from-raw-pointer" => &["E0308", "E0277", "E0599"],
                 _ => BORROWCK,
             };
         }
@@ -573,12 +578,13 @@ pub fn check(s: &Scenario) -> CheckResult {
         Scenario::AxleNew(n) => check_axle(*n),
         Scenario::AxleIndex { n, index } => check_axle_index(*n, *index),
         Scenario::LiveTarget(which) => {
-            let r = match which % 3 {
+            let r = match which % 5 {
                 2 => crate::c17::statics(),
-                v => crate::c17::lock_held(v),
+                v @ (0 | 1) => crate::c17::lock_held(v),
+                v => crate::c17::lock_held(v - 1),
             };
             match r {
-                Ok(()) => Ok(CaseInfo::new(true, hash_of(&("live-target", which % 3))).class("target cannot be replaced under a live borrow")),
+                Ok(()) => Ok(CaseInfo::new(true, hash_of(&("live-target", which % 5))).class("target cannot be replaced under a live borrow")),
                 Err(v) => Err(Violation::new(format!("C16/lifetime/live-target/{}", v.key.trim_start_matches("C17/")), v.message)),
             }
         }
@@ -631,7 +637,7 @@ impl Property for C16 {
                 n += 1;
             }
         }
-        for which in 0..3u8 {
+        for which in 0..5u8 {
             sink(Scenario::LiveTarget(which));
             n += 1;
         }
